@@ -365,6 +365,23 @@ func ruleStoreRMW(c *Ctx) {
 		n++
 		c.atomicRMW(rule, fn, F(getStore), F(corePut))
 	}
+	// … and the same through the persisting helper: a function that derives the record it hands to
+	// putStoreLocked from a store it looked up holds the lock from the lookup on (a label update that clones
+	// a store read before the lock writes back a lifecycle state that may have changed meanwhile)
+	putLocked := P.Method("server/cluster", "RaftCluster", "putStoreLocked")
+	sites2, _ := c.nonScaffoldCallers(putLocked)
+	for _, s := range sites2 {
+		fn := s.Caller
+		if fnPkgPath(fn) != modPath+"/server/cluster" || done[fn] {
+			continue
+		}
+		done[fn] = true
+		if len(callsIn(fn, false, F(getStore))) == 0 {
+			continue
+		}
+		n++
+		c.atomicRMW(rule, fn, F(getStore), F(putLocked))
+	}
 	if n == 0 {
 		c.Undec(rule, "functions that read a store and put it back", "at least one", "", "")
 	}
@@ -387,6 +404,7 @@ func init() {
 	register("C14", "Store lifecycle is a one-way state machine and stays durable", func(c *Ctx) {
 		c.Group("C14/state-machine", "State is assigned only by three constant options; each is applied only under its typestate guard on the store read under the cluster write lock (held until the new state is published)", func() { ruleStoreStateMachine(c) })
 		c.Group("C14/bury-when-empty", "buryStore is called only under GetStoreRegionCount(id) == 0; only tombstones are deleted", func() { ruleBuryWhenEmpty(c) })
+		c.Group("C14/role-index-table", "(shared with C07) the count a store is buried on is complete: every voter, learner and pending peer of a region is filed in its per-store index, whatever its joint-consensus role", func() { ruleRoleIndexTable(c) })
 		c.Group("C14/persist-before-serve", "the served store set changes only after the storage write succeeded, with the same record; heartbeats publish volatile attributes only", func() { ruleStorePersistBeforeServe(c) })
 		c.Group("C14/admission", "id 0 and duplicate addresses (among live stores) are rejected; tombstones are refused at the RPC", func() { ruleStoreAdmission(c); ruleAddressScanAlways(c) })
 		c.Group("C14/store-rmw-atomic", "reading a cached store and publishing its modified clone happen under one hold of the cluster lock", func() { ruleStoreRMW(c) })
